@@ -24,6 +24,15 @@ CHECKS = {
         text='Same pipeline as C01; clauses C02_TimeExact, C02_NumberExact, C02_Gapless, C02_SourceAligned are evaluated by TLC on every '
              'served segment (tfdt, mfhd sequence number, summed sample durations, payload identity, position modulo the reference duration).',
         note=LW_NOTE + ' Known finding C02-drift-duration is matched by a narrow signature (known_findings.json).', design='4 C02'),
+    'C03': dict(
+        technique='TLA+ spec SegmentRewrite.tla (box layout + pointer fix-ups of the two-pass encoder): TLC over all edit subsets x layouts; '
+                  'real segments for DRM/PIFF/events/bugs/addressing vectors walked independently and judged by TLC',
+        text='TLC checks for every combination of tfdt insertion / 64-bit flip, emsg insertion, PIFF insertion, explicit base offset, IV size and '
+             'the saio bug option that trun.data_offset and saio.offset resolve to the payload / first senc entry after the encoder\'s '
+             'fix-ups; every fixture representation is then requested with DRM system x location subsets, PlayReady version/PIFF, event '
+             'schedules, bugs=saio, by number, by time and in live mode 54 years after the epoch, and TLC evaluates well-formedness, pointer, '
+             'sample-size, senc-count and payload-identity clauses on the independent projection of every response.',
+        note='Trusted: TLC, the independent ISO-BMFF walker and stored-file scan, the PlayReady object reader. Stored segment kinds are those of the fixture media; other layouts (no tfdt, explicit base offset, 16-byte IV) are covered at design level only.', design='4 C03'),
     'C06': dict(
         technique='TLA+ spec LiveWindow.tla static mode: TLC over all layouts (C06 invariants) + pure-layer replay + every static '
                   'manifest walked end to end over HTTP (numbers, timeline entries, SegmentList ranges, one past the end), TLC trace validation',
@@ -48,6 +57,14 @@ CHECKS = {
              'availabilityStartTime monotonicity) are evaluated on pairs from the real timing layer and from real manifests, and for '
              'patches the T1 document is patched with the response to its PatchLocation at T2 and compared with the full T2 manifest.',
         note='Trusted: TLC, lxml, the minimal replace-only XML-patch applier. Known finding C09-patch-symbolic-start-rollover.', design='4 C09'),
+    'C10': dict(
+        technique='TLA+ trace spec SegmentRewriteTrace.tla (C10 clauses) + decision of expected pssh systems from the DRM selection; real init '
+                  'segments diffed box by box against the stored init segment',
+        text='For every fixture representation x DRM selection (every subset of systems x locations, all, none) x PlayReady version x '
+             'live/vod x single- and multi-period init route the response is rebuilt without the appended pssh boxes and compared byte by '
+             'byte with the stored init segment (minus mehd in live mode); TLC checks that exactly the expected systems appended a pssh, that '
+             'ClearKey pssh key ids / the PlayReady object name the track KID, that mehd is removed in live mode only and clear tracks are untouched.',
+        note='Trusted: TLC, the independent ISO-BMFF walker and stored-file scan, the PlayReady object reader. Stored segment kinds are those of the fixture media; other layouts (no tfdt, explicit base offset, 16-byte IV) are covered at design level only.', design='4 C10'),
     'C12': dict(
         technique='TLA+ spec MultiPeriod.tla over LiveWindow: TLC on period tiling (vod, live loop) and period-relative segment mapping; real '
                   'multi-period manifests and /mps media responses compared with stored files, validated by TLC',
